@@ -231,6 +231,9 @@ package plugin
 //@ macro keyLess14(x, y) = (stable14(x) && !stable14(y)) || (stable14(x) == stable14(y) && (class14(pfxAddr(x.Address)) < class14(pfxAddr(y.Address)) || (class14(pfxAddr(x.Address)) == class14(pfxAddr(y.Address)) && addrLess(pfxAddr(x.Address), pfxAddr(y.Address)))))
 //@ macro elig14(a) = !addrIs4(pfxAddr(a.Address)) && !a.Deprecated && !a.Temporary && !a.Tentative
 
+// best14(a, addrs): a is the address of an eligible listed address that no other eligible one beats
+//@ macro best14(a, addrs) = exists(jb, 0, len(addrs), elig14(addrs[jb]) && pfxAddr(addrs[jb].Address) == a && forall(j2, 0, len(addrs), elig14(addrs[j2]) ==> !keyLess14(addrs[j2], addrs[jb])))
+
 //@ func isEUI64
 //@   ensures E1 [C14]: result == (addrByte(ip, 11) == 255 && addrByte(ip, 12) == 254)
 //@   opt safety [C14]
@@ -253,7 +256,63 @@ package plugin
 //@   loop 1 invariant F1 [C14]: !pfxValid(best.Address) ==> best.Address == pfxZero && forall(j, 0, rangeindex + 1, !elig14(addrs[j]))
 //@   loop 1 invariant F2 [C14]: pfxValid(best.Address) ==> elig14(best) && exists(j, 0, rangeindex + 1, addrs[j] == best) && forall(j, 0, rangeindex + 1, elig14(addrs[j]) ==> !keyLess14(addrs[j], best))
 //@   ensures E1 [C14]: ghost.addrsErr != nil ==> result1 != nil
-//@   ensures E2 [C14]: result1 == nil ==> exists(j, 0, len(ghost.lastAddrs), elig14(typed(ghost.lastAddrs, "[]system.IP")[j]) && pfxAddr(typed(ghost.lastAddrs, "[]system.IP")[j].Address) == result0 && forall(j2, 0, len(ghost.lastAddrs), elig14(typed(ghost.lastAddrs, "[]system.IP")[j2]) ==> !keyLess14(typed(ghost.lastAddrs, "[]system.IP")[j2], typed(ghost.lastAddrs, "[]system.IP")[j])))
+//@   ensures E2 [C14]: result1 == nil ==> best14(result0, typed(ghost.lastAddrs, "[]system.IP"))
 //@   ensures E3 [C14]: result1 != nil && ghost.addrsErr == nil ==> forall(j, 0, len(ghost.lastAddrs), !elig14(typed(ghost.lastAddrs, "[]system.IP")[j]))
 //@   ensures E4 [C14,C01]: result1 == nil ==> addrIsValid(result0)
 //@   opt safety [C14,C17]
+
+//@ macro isRDNSS(x) = isType(x, "*ndp.RecursiveDNSServer") && x.val > 0
+//@ func (*RDNSS).apply
+//@   requires P1: r != nil && ra != nil
+//@   assigns heap(ndp.RouterAdvertisement) at ra, new mem(ndp.Option), new heap(ndp.RecursiveDNSServer)
+//@   ensures E1 [C01,C14]: len(ra.Options) == old(len(ra.Options)) + 1 && isRDNSS(ra.Options[old(len(ra.Options))]) && as(ra.Options[old(len(ra.Options))], "*ndp.RecursiveDNSServer").Lifetime == r.Lifetime && as(ra.Options[old(len(ra.Options))], "*ndp.RecursiveDNSServer").Servers == servers
+//@   ensures E2 [C01,C04]: raHeaderEq(star(ra), old(star(ra))) && forall(j, 0, old(len(ra.Options)), ra.Options[j] == old(ra.Options[j]))
+//@   opt safety [C01,C17]
+//@   opt frame [C01]
+
+//@ func (*RDNSS).Apply
+//@   opt refines iface:plugin.Plugin.Apply
+//@   opt refinetags [C01,C04]
+//@   requires P1: rdnssOK(r) && ra != nil
+//@   assigns heap(ndp.RouterAdvertisement) at ra, new mem(ndp.Option), new heap(ndp.RecursiveDNSServer), new mem(netip.Addr), new mem(system.IP), ghost.lastAddrs
+//@   ensures E1 [C01,C14]: !r.Auto ==> result == nil && len(ra.Options) == old(len(ra.Options)) + 1 && isRDNSS(ra.Options[old(len(ra.Options))]) && as(ra.Options[old(len(ra.Options))], "*ndp.RecursiveDNSServer").Lifetime == r.Lifetime && as(ra.Options[old(len(ra.Options))], "*ndp.RecursiveDNSServer").Servers == r.Servers
+//@   ensures E2 [C14]: r.Auto && result == nil ==> len(ra.Options) == old(len(ra.Options)) + 1 && isRDNSS(ra.Options[old(len(ra.Options))]) && len(as(ra.Options[old(len(ra.Options))], "*ndp.RecursiveDNSServer").Servers) == 1 + len(r.Servers) && best14(as(ra.Options[old(len(ra.Options))], "*ndp.RecursiveDNSServer").Servers[0], typed(ghost.lastAddrs, "[]system.IP")) && forall(k, 0, len(r.Servers), as(ra.Options[old(len(ra.Options))], "*ndp.RecursiveDNSServer").Servers[k + 1] == r.Servers[k])
+//@   ensures E3 [C14]: r.Auto && result != nil ==> len(ra.Options) == old(len(ra.Options))
+//@   opt safety [C01,C17]
+//@   opt frame [C01]
+
+//@ macro isRI(x) = isType(x, "*ndp.RouteInformation") && x.val > 0
+//@ macro riMatches(o, r, pfx, lt) = o.PrefixLength == pfxBits(pfx) && o.Preference == r.Preference && o.RouteLifetime == lt && o.Prefix == pfxAddr(pfx)
+//@ macro routeLifetime(r, now) = ite(r.Deprecated, remaining(r.Epoch, r.Lifetime, now), r.Lifetime)
+
+//@ func (*Route).apply
+//@   requires P1: routeOK(r) && ra != nil && forall(k, 0, len(routes), 0 <= pfxBits(routes[k]))
+//@   assigns heap(ndp.RouterAdvertisement) at ra, new mem(ndp.Option), new heap(ndp.RouteInformation), ghost.clockRead
+//@   loop 1 invariant I1 [C01]: 0 <= rangeindex + 1 && rangeindex + 1 <= len(routes) && len(ra.Options) == old(len(ra.Options)) + rangeindex + 1 && raHeaderEq(star(ra), old(star(ra)))
+//@   loop 1 invariant I2 [C01]: forall(j, 0, old(len(ra.Options)), ra.Options[j] == old(ra.Options[j]))
+//@   loop 1 invariant I3 [C01]: forall(j, old(len(ra.Options)), len(ra.Options), isRI(ra.Options[j]) && ra.Options[j].val < brk && riMatches(as(ra.Options[j], "*ndp.RouteInformation"), r, routes[j - old(len(ra.Options))], lt))
+//@   loop 1 invariant I4 [C01]: lt == routeLifetime(r, ghost.clockRead) && ra != nil
+//@   ensures E1 [C01,C15]: len(ra.Options) == old(len(ra.Options)) + len(routes)
+//@   ensures E2 [C01,C04]: raHeaderEq(star(ra), old(star(ra))) && forall(j, 0, old(len(ra.Options)), ra.Options[j] == old(ra.Options[j]))
+//@   ensures E3 [C01,C15]: forall(j, old(len(ra.Options)), len(ra.Options), isRI(ra.Options[j]) && riMatches(as(ra.Options[j], "*ndp.RouteInformation"), r, routes[j - old(len(ra.Options))], routeLifetime(r, ghost.clockRead)))
+//@   opt safety [C01,C17]
+//@   opt frame [C01]
+
+//@ func (*Route).Apply
+//@   opt refines iface:plugin.Plugin.Apply
+//@   opt refinetags [C01,C04]
+//@   requires P1: routeOK(r) && ra != nil
+//@   assigns heap(ndp.RouterAdvertisement) at ra, new mem(ndp.Option), new heap(ndp.RouteInformation), new mem(netip.Prefix), new mem(system.Route), ghost.clockRead, ghost.lastRoutes
+//@   ensures E1 [C01]: !r.Auto ==> result == nil && len(ra.Options) == old(len(ra.Options)) + 1 && isRI(ra.Options[old(len(ra.Options))]) && riMatches(as(ra.Options[old(len(ra.Options))], "*ndp.RouteInformation"), r, r.Prefix, routeLifetime(r, ghost.clockRead))
+//@   opt safety [C01,C17]
+//@   opt frame [C01]
+
+// ---- PREF64 lifetime (C01, RFC 8781 section 4.1) -----------------------------------
+//@ macro ceilMul(d, m) = ((d + m - 1) / m) * m
+//@ func NewPREF64
+//@   requires P1: secs(4) <= maxInterval && maxInterval <= secs(1800)
+//@   assigns new heap(plugin.PREF64), new heap(ndp.PREF64)
+//@   ensures E1 [C01]: result != nil && result.Inner != nil && result.Inner.Prefix == prefix
+//@   ensures E2 [C01]: result.Inner.Lifetime == imin(secs(65528), ceilMul(3 * maxInterval, secs(8)))
+//@   ensures E3 [C03]: 0 <= result.Inner.Lifetime && result.Inner.Lifetime <= secs(65528) && result.Inner.Lifetime % secs(8) == 0
+//@   opt safety [C01]
